@@ -8,6 +8,7 @@ monitors that evaluate the property predicate on the real execution:
   C  c20_tags.py    audio.tags.convert_tags_to_track      <-> Untrusted/Tags.v
   D  c20_transcr.py the transcribed Python built-ins, each against the real one
   E  c20_download.py internal.http.download's chunk loop   <-> Untrusted/Download.v
+  G  c20_proxy.py   _unwrap_stream over the real requests session (with / without [proxy]) and failing connects: monitors only
   F  c20_stream.py  StreamLibraryProvider.lookup / StreamPlaybackProvider.translate_uri <-> Untrusted/Stream.v
 """
 
@@ -17,6 +18,7 @@ from common import vlib
 
 import c20_download
 import c20_parse
+import c20_proxy
 import c20_stream
 import c20_tags
 import c20_transcr
@@ -133,3 +135,4 @@ def run(chk):
     c20_transcr.run(chk)
     c20_download.run(chk)
     c20_stream.run(chk)
+    c20_proxy.run(chk)
